@@ -205,8 +205,43 @@ def P_C04 (cfg : WireCfg) (fs : List Frame) (o : WireObs) : Verdict :=
 
 /-! #### P_C05 -/
 
-def P_C05 (_cfg : WireCfg) (fs : List Frame) (o : WireObs) : Verdict :=
+/-- the method implementation of this request sets `continues` and then replies (the propagating `reply` op) -/
+def scriptStreamsFirst (cfg : WireCfg) (r : Request) : Bool :=
+  match ifacePart r.method with
+  | none => false
+  | some i =>
+    i != svcName &&
+    (match lastRegistered cfg i with
+     | some (kind, _, _) => kind == "script" && !((r.method.splitOn ".").getLast?.getD "").startsWith "Nx"
+     | none => false) &&
+    match r.parameters with
+    | some p => (match p.get? "script" with
+      | some (.arr (a :: b :: _)) =>
+        a.get? "op" == some (.str "cont") && a.get? "v" == some (.bool true) &&
+          (b.get? "op" == some (.str "reply") || b.get? "op" == some (.str "err"))
+      | _ => false)
+    | none => false
+
+/-- "an attempt by a method implementation to do otherwise fails with an error": behind requests the library
+    answers itself, a call without `more` whose implementation sets `continues` and replies gets an error back
+    from that reply (whatever the other flags of the request) — the scripted implementation propagates it, so the
+    connection ends with an error -/
+def checkMismatchFails (cfg : WireCfg) (fs : List Frame) (o : WireObs) : Verdict :=
+  let pre := fs.takeWhile fun f => match f with
+    | .req r => librarySide cfg r && !illTypedBuiltin r
+    | .bad => false
+  match fs.drop pre.length with
+  | .req r :: _ =>
+    if !wantsMore r && scriptStreamsFirst cfg r then
+      (if o.status == .err then none else some "continues-without-more-did-not-fail-in-the-method-implementation")
+    else none
+  | _ => none
+
+def P_C05 (cfg : WireCfg) (fs : List Frame) (o : WireObs) : Verdict :=
   if o.panicked then some "panic" else
+  match checkMismatchFails cfg fs o with
+  | some r => some r
+  | none =>
   -- tokens are unique per request: a reply with continues:true must not carry
   -- the token of a request that did not ask for `more`
   let plainToks := fs.filterMap fun f => match f with
